@@ -194,11 +194,17 @@ class E3Intrinsics(Intrinsics):
                 for j, adv in enumerate(advs):
                     s = st if j == len(advs) - 1 else st.fork()
                     eng.raw = True
-                    for p in (p_odd, p_quote, p_err, p_pred, carried, position) + scratch:
-                        t = eng.fresh("k." + str(self.kernel_calls), 64)
+                    s.nondet.append(("kernel.adv", adv, 64))       # concrete choice: keeps the two advances from being merged
+                    for p in (p_odd, p_quote, p_err, p_pred, carried) + scratch:
+                        t = eng.path_fresh(s, "k", 64)
                         s.nondet.append(("kernel", t, 64))
                         eng.store(s, p, t, pos, 64)
-                    lo = eng.fresh("k.len." + str(self.kernel_calls), 64)
+                    # *position: the last structural found is reported at the last byte processed by this call (a concrete
+                    # offset; the byte there is an unconstrained symbol of the message, so every strip/keep decision of the
+                    # caller stays possible, independently per buffer)
+                    p_in = eng.deref(s, position, pos, 64)
+                    eng.store(s, position, simp(bv(p_in, 64) + adv) if n < 64 or adv == n and n <= 64 else (adv - 1) & M(64), pos, 64)
+                    lo = eng.path_fresh(s, "k.len", 64)
                     s.nondet.append(("kernel.len", lo, 64))
                     eng.store(s, index, lo, pos, 64)
                     eng.raw = False
@@ -224,12 +230,7 @@ class E3Intrinsics(Intrinsics):
         @reg(H + "verifE3Message")
         def e3_message(eng, st, fr, args, ins):
             n = eng.need_int(st, args[0], ins.get("pos"), "message length")
-            body = eng.fresh("msg.body", 8)
-            tail = [eng.fresh("msg.tail%d" % i, 8) for i in range(6)]
-            elems = [body] * n
-            for i, t in enumerate(tail):
-                if n - 2 - i > 0:
-                    elems[n - 2 - i] = t
+            elems = [z3.BitVec("msg!%d" % i, 8) for i in range(n)]
             elems[0] = ord("{")
             elems[n - 1] = ord("}")
             return eng.mk_slice(st, elems, label="msg")
@@ -249,7 +250,7 @@ class E3Intrinsics(Intrinsics):
             if to_end is True:
                 v = simp(hi)
             else:
-                v = eng.fresh("s2.skip", 64)
+                v = eng.path_fresh(st, "s2.skip", 64)
                 st.nondet.append(("s2.skip", v, 64))
                 st.pc.append(z3.And(v >= I, v <= hi))
             eng.store(st, PtrV(base.obj, base.path + (0,)), v, pos, 64)
@@ -276,7 +277,86 @@ class E3Engine(Engine):
         self.kernel_limit = None
         self.env_chans = {}               # channel id -> "send" | "recv" (the other end is the environment)
         self.abstracted = 0
+        self.interned = {}
+        self._ncache = {}
+        self._nkeep = []
+        self.compacted = 0
         self.abstraction_failed = []
+
+    # ---- solver: independence slicing -------------------------------------------------------------------------
+    # Invariant kept by the engine (no lazy feasibility): the path condition of a live state is satisfiable. Then
+    # pc /\ c is satisfiable iff slice(pc, c) /\ c is, where slice = the conjuncts transitively sharing a symbol with c.
+    def _names(self, c):
+        i = c.get_id()
+        ns = self._ncache.get(i)
+        if ns is None:
+            ns = frozenset(consts_of(c, {}))
+            self._ncache[i] = ns
+            self._nkeep.append(c)
+        return ns
+
+    def _slice(self, pc, want):
+        want = set(want)
+        rest = [(c, self._names(c)) for c in pc]
+        keep = []
+        changed = True
+        while changed and rest:
+            changed = False
+            nxt = []
+            for c, ns in rest:
+                if ns & want:
+                    keep.append(c)
+                    want |= ns
+                    changed = True
+                else:
+                    nxt.append((c, ns))
+            rest = nxt
+        return keep
+
+    def check(self, st, extra=None, nontrivial=False):
+        if self.opts.get("e3_no_slicing"):
+            return super().check(st, extra, nontrivial)
+        t0 = time.time()
+        self.queries += 1
+        if nontrivial:
+            self.nontrivial += 1
+        pc = st.pc
+        if extra is None:
+            if not pc:
+                return "sat"
+            extra, pc = pc[-1], pc[:-1]
+        extra = bl(extra)
+        sl = self._slice(pc, self._names(extra))
+        sol = z3.Solver()
+        sol.set("timeout", self.timeout_ms)
+        for c in sl:
+            sol.add(c)
+        sol.add(extra)
+        r = sol.check()
+        self.last_solver = sol
+        self.solver_s += time.time() - t0
+        return "sat" if r == z3.sat else "unsat" if r == z3.unsat else "unknown"
+
+    def concretize(self, st, term, what="value"):
+        term = simp(term)
+        if type(term) is int:
+            return term
+        sl = self._slice(st.pc, self._names(term))
+        sol = z3.Solver()
+        sol.set("timeout", self.timeout_ms)
+        for c in sl:
+            sol.add(c)
+        self.queries += 2
+        t0 = time.time()
+        try:
+            if sol.check() != z3.sat:
+                return None
+            v = sol.model().eval(term, model_completion=True).as_long()
+            if sol.check(term != v) == z3.unsat:
+                return v
+            return None
+        finally:
+            self.solver_s += time.time() - t0
 
     # ---- events -------------------------------------------------------------------------------------------
     def add_event(self, st, kind, **kw):
@@ -312,12 +392,24 @@ class E3Engine(Engine):
             if r != "unsat":
                 self.abstraction_failed.append((t.get("name"), fname, pos, r))
                 continue
-            nv = self.fresh("abs.%s" % fname, bits)
+            nv = self.path_fresh(st, "abs.%s" % fname, bits)
             st.nondet.append(("abs." + fname, nv, bits))
             st.pc.append(z3.And(nv >= lo, nv <= hi))
             x[fi] = nv
             self.abstracted += 1
         return tuple(x)
+
+    def path_fresh(self, st, name, bits):
+        """fresh symbol whose identity is a function of (thread, ordinal along the path): sibling paths reuse the same
+        symbols for their n-th nondeterministic value, which is what lets states merge (symbols are bound per path)"""
+        n = st.notes.get("nf", 0) + 1
+        st.notes["nf"] = n
+        key = "%s!t%s!%d" % (name, st.notes.get("tid", "0"), n)
+        t = self.interned.get((key, bits))
+        if t is None:
+            t = z3.BitVec(key, bits) if bits else z3.Bool(key)
+            self.interned[(key, bits)] = t
+        return t
 
     def stuck(self, st, why, pos):
         st.notes["stuck"] = (why, pos)
@@ -384,6 +476,93 @@ class E3Engine(Engine):
             self.assumed_panics[(msg, pos)] = self.assumed_panics.get((msg, pos), 0) + 1
             return self.assume(st, cond)
         return super().oblige(st, cond, kind, msg, pos)
+
+    # ---- control: only real loop back edges count as iterations (E2 counts every jump to a lower-numbered block, which
+    #      makes the merge key history dependent) ------------------------------------------------------------------
+    def back_edges(self, fn):
+        be = fn.get("_backedges")
+        if be is None:
+            blocks = fn["blocks"]
+            n = len(blocks)
+            dom = [set(range(n)) for _ in range(n)]
+            dom[0] = {0}
+            changed = True
+            while changed:
+                changed = False
+                for b in range(1, n):
+                    ps = [p for p in blocks[b]["preds"]]
+                    if not ps:
+                        continue
+                    new = set.intersection(*[dom[p] for p in ps]) | {b}
+                    if new != dom[b]:
+                        dom[b] = new
+                        changed = True
+            be = set()
+            for b in range(n):
+                for t in blocks[b]["succs"]:
+                    if t in dom[b]:
+                        be.add((b, t))
+            fn["_backedges"] = be
+            fn["_dom"] = dom
+            defs = {}
+            for b in blocks:
+                for i in b["ins"]:
+                    if "r" in i:
+                        defs[i["r"]] = b["i"]
+            fn["_defblk"] = defs
+        return be
+
+    def compact_pc(self, st, fr):
+        """at a loop back edge: keep only the conjuncts of the path condition that (transitively) mention a symbol still
+        reachable from the registers, the small heap objects or the recorded events. The state is feasible when this is
+        called (no lazy feasibility), so dropping conjuncts over dead symbols only widens it (over-approximation)."""
+        roots = []
+        for f in st.frames:
+            for v in f.env.values():
+                _terms_of(v, roots)
+        big = self.opts.get("e3_big_objects", 64)
+        for k, v in st.mem.items():
+            if type(v) is tuple and len(v) > big:
+                continue
+            _terms_of(v, roots)
+        for e in st.notes.get("ev", ()):
+            _terms_of(e.val, roots)
+        keep = relevant_pc(st.pc, roots)
+        if len(keep) < len(st.pc):
+            self.compacted += len(st.pc) - len(keep)
+            st.pc = keep
+
+    def prune_dead(self, st):
+        """drop registers of the top frame whose defining block does not dominate the current block (they cannot be used
+        again); stale pointers in such registers would otherwise block state merging"""
+        fr = st.top()
+        fn = fr.fn
+        self.back_edges(fn)
+        dom = fn["_dom"][fr.blk]
+        defs = fn["_defblk"]
+        dead = [r for r in fr.env if r in defs and defs[r] not in dom]
+        for r in dead:
+            del fr.env[r]
+
+    def goto(self, st, fr, target):
+        if (fr.blk, target) in self.back_edges(fr.fn):
+            if fr.iters is None:
+                fr.iters = {}
+            n = fr.iters.get(target, 0) + 1
+            fr.iters[target] = n
+            if n > self.max_iters:
+                self.oblige(st, False, "unwind", "loop unwinding bound %d exceeded in %s" % (self.max_iters, fr.fn["name"]), fr.fn.get("pos"))
+                st.status = "dead"
+                return
+            if fr.fn["name"] in self.merge_funcs:
+                fr.tag = "head"
+                if self.opts.get("e3_compact_pc", False):
+                    self.compact_pc(st, fr)
+        elif target <= fr.blk and fr.fn["name"] in self.merge_funcs:
+            fr.tag = "head"         # join block: park for merging, no iteration count
+        fr.prev = fr.blk
+        fr.blk = target
+        fr.ip = 0
 
     # ---- calls -----------------------------------------------------------------------------------------------
     def do_call(self, st, fr, callee, args, dest, ins):
@@ -548,6 +727,9 @@ class E3Engine(Engine):
             va, vb = a.notes.get(key), b.notes.get(key)
             if va is not vb and va != vb:
                 return None
+        if a.frames and b.frames and a.frames[-1].fn is b.frames[-1].fn and a.frames[-1].blk == b.frames[-1].blk:
+            self.prune_dead(a)
+            self.prune_dead(b)
         m = super().try_merge(a, b)
         if m is None:
             return None
